@@ -83,6 +83,7 @@ type ruler struct {
 	pos     string
 	seen13d bool
 	seen13e bool
+	seen13eY bool
 }
 
 func (r *ruler) key(op, what string) string { return "vm.Run / " + op + " / " + what }
@@ -581,6 +582,24 @@ func (r *ruler) v6() {
 					}
 				}
 				r.okIf("V13c", k13, pa, good, "the parent receives the function with a private copy of its captured frame", "a yielded function with a captured frame must be handed on with a private copy of that frame (slices.Clone(*f.Frame) + SetFrame)")
+				if !r.seen13eY {
+					// V13e for YIELD: only a frame of the generator's own stack is
+					// left behind; a function the generator was *given* (gen = (f) ->
+					// yield f) captured a frame of its consumer, which stays alive
+					r.seen13eY = true
+					k13e := "vm.Run / YIELD / detaches a function only from the generator's own stack"
+					asks := false
+					for _, e := range pa.Events {
+						if e.Kind == "call" && (strings.Contains(e.Fn, "Owns") || strings.Contains(e.Fn, "owns") || strings.Contains(e.Fn, "InTop") || strings.Contains(e.Fn, "IsTop")) {
+							asks = true
+						}
+					}
+					if asks {
+						r.s.OK("V13e", k13e, r.ppos(pa), "the copy is made under a test that relates the captured frame to the generator's stack")
+					} else {
+						r.s.Bad("V13e", k13e, r.ppos(pa), "YIELD copies the captured frame of every function value it hands out, also of one the generator was given by its consumer, whose frame is still alive: the copy freezes the captured variables for that value", pa.Describe()...)
+					}
+				}
 			default:
 				r.okIf("V13c", k13, pa, len(cl) == 0 && len(sf) == 0, "nothing to detach", "only function values with a frame are re-pointed")
 			}
